@@ -38,7 +38,7 @@ ASSUMPTIONS = [
 ]
 SHARDS = {"quick": 12, "thorough": 14}
 FLOORS = {"quick": {"scripted_calls": 1500, "calls_after_a_failed_call": 500, "late_completions_delivered": 100,
-                    "iterator_failures": 150, "timeouts_expected": 60, "real_backend_calls": 80, "clogged_failure_cycles": 16, "clog_exception_kinds": 12},
+                    "iterator_failures": 150, "timeouts_expected": 60, "real_backend_calls": 80, "clogged_failure_cycles": 16, "clog_exception_kinds": 12, "transport_failures": 8},
           "thorough": {"scripted_calls": 30000, "calls_after_a_failed_call": 10000, "late_completions_delivered": 2000,
                        "iterator_failures": 3000, "timeouts_expected": 1200, "real_backend_calls": 1200, "clogged_failure_cycles": 200, "clog_exception_kinds": 16}}
 
@@ -383,6 +383,13 @@ def run_real(case, ctx):
             if c["kind"] == "iter":
                 c["iter_fail_at"] = min(c["iter_fail_at"], c["n"] - 1)
         hist.extend(h)
+    if backend in ("loky", "multiprocessing"):
+        # failures in TRANSPORT: the result or the exception of a task cannot be pickled, or the task cannot be sent - the
+        # pools report them through another path than an exception raised by the task
+        for c in hist:
+            if c["kind"] == "task" and rng.random() < 0.35:
+                c.update(kind="transport", how=rng.choice(["unpicklable-result", "unpicklable-exception", "unpicklable-argument"]), fail_at=c["fail_at"][:1])
+                c.pop("exc", None)
     cfg["history"] = hist
     d = harness.mkscratch("vjl-c04-")
     try:
@@ -420,6 +427,12 @@ def run_real(case, ctx):
                         continue
                     ctx.violation("ok-call:wrong-result", f"{backend} call {k} (ok, n={c['n']}) after {[h['kind'] for h in hist[:k]]} gave {str(o)[:200]}", desc)
                 prev_failed = False
+            elif c["kind"] == "transport":
+                prev_failed = True
+                ctx.count("transport_failures")
+                ctx.count(f"transport_failures:{backend}:{c['how']}")
+                if "exc_type" not in o:
+                    ctx.violation("transport-failure:returned", f"{backend} call {k} whose task {c['fail_at']} fails in transport ({c['how']}) returned {str(o)[:200]}", desc)
             elif c["kind"] == "task":
                 prev_failed = True
                 if not (o.get("exc_type") == c.get("exc", "Boom") and o.get("exc_args", [None])[0] == tag and o["exc_args"][1] in c["fail_at"]):
